@@ -58,12 +58,15 @@ TARGETS = [
 # a store into self, or any other use of self, is rejected.  Specialising a parameter substitutes the constant and folds
 # `<const> is None`, integer arithmetic on constants and `if <const>`: the call sites are matched to a specialisation by their shape.
 SELF_FIELDS = {
-    "SHADE": {"_pop_size": "int64", "_H_size": "int64", "_H_F": "float64[:]", "_H_CR": "float64[:]"},
-    "SHAGA": {"_pop_size": "int64", "_H_size": "int64", "_H_MR": "float64[:]", "_H_CR": "float64[:]", "_str_len": "int64"},
+    "SHADE": {"_pop_size": "int64", "_H_size": "int64", "_H_F": "float64[:]", "_H_CR": "float64[:]", "_population_g_i": "float64[:, :]",
+              "_pbest_id": "int64[:]", "_population_archive": "float64[:, :]", "_left": "float64[:]", "_right": "float64[:]"},
+    "DifferentialEvolution": {"_population_g_i": "float64[:, :]", "_left": "float64[:]", "_right": "float64[:]", "_thefittest_genotype": "float64[:]"},
+    "SHAGA": {"_pop_size": "int64", "_H_size": "int64", "_H_MR": "float64[:]", "_H_CR": "float64[:]", "_str_len": "int64",
+              "_fitness_i": "float64[:]", "_population_g_i": "int8[:, :]"},
     "SelfCGA": {"_K": "float64", "_iters": "int64"},
     "jDE": {"_pop_size": "int64", "_F": "float64[:]", "_CR": "float64[:]", "_t_F": "float64", "_t_CR": "float64", "_F_min": "float64", "_F_max": "float64"},
 }
-METHOD_TARGETS = [
+METHOD_TARGETS_0 = [
     ("optimizers/_shade.py", None, "lehmer_mean", "lehmer_mean_unweighted", "float64(float64[:])", {"power": 2, "weight": None}),
     ("optimizers/_shade.py", None, "lehmer_mean", "lehmer_mean_weighted", "float64(float64[:], float64[:])", {"power": 2}),
     ("optimizers/_shade.py", "SHADE", "_update_u_F", "SHADE_update_u_F", "float64(float64, float64[:])", {}),
@@ -79,7 +82,17 @@ METHOD_TARGETS = [
     # a str-keyed dict whose key set never changes is modelled by its value list in key order, a key by its position (DICT_PARAMS);
     # the in-place update of the caller's dict is part of the result: the function returns (dict after the call, returned dict)
     ("optimizers/_selfcga.py", "SelfCGA", "_get_new_proba", "SelfCGA_get_new_proba", "(float64[:], float64[:])(float64[:], int64, float64)", {}),
+    # the trial vector of one individual (the body of the oracle d_*_trials of the generation step)
+    ("optimizers/_shade.py", "SHADE", "_get_new_individ_g", "SHADE_get_new_individ_g", "float64[:](float64[:], float64, float64)", {}),
+    ("optimizers/_shaga.py", "SHAGA", "_get_new_individ_g", "SHAGA_get_new_individ_g", "int8[:](int8[:], float64, float64)", {}),
+    ("optimizers/_differentialevolution.py", "DifferentialEvolution", "_get_new_individ_g", "DE_get_new_individ_g", "float64[:](float64[:], float64, float64)", {}),
 ]
+METHOD_TARGETS = [t for t in METHOD_TARGETS_0]
+# a function-valued local bound by a pinned statement becomes a leading function parameter: (statement text, Coq type, result type, argument types)
+FUNC_LOCALS = {"DE_get_new_individ_g": ("mutation_func = self._mutation_pool[self._specified_mutation]",
+                                        "list Q -> list Q -> list (list Q) -> Q -> M (list Q)", "float64[:]", ["float64[:]", "float64[:]", "float64[:, :]", "float64"])}
+C07_METHODS = ["SHADE_get_new_individ_g", "DE_get_new_individ_g"]
+C06_METHODS = ["SHAGA_get_new_individ_g"]
 DICT_PARAMS = {"SelfCGA_get_new_proba": ("proba_dict", "operator")}
 C14_METHODS = ["SelfCGA_get_new_proba"]
 # how a call site selects a specialisation: (callee, sorted names of the arguments given) -> output name
@@ -87,7 +100,7 @@ CALL_SPECS = {
     ("lehmer_mean", ("x",)): "lehmer_mean_unweighted",
     ("lehmer_mean", ("weight", "x")): "lehmer_mean_weighted",
 }
-C15_METHODS = [t[3] for t in METHOD_TARGETS if t[3] not in C14_METHODS]
+C15_METHODS = [t[3] for t in METHOD_TARGETS if t[3] not in C14_METHODS + C07_METHODS + C06_METHODS]
 
 # functions without an @njit signature: parameter / return types written as the signature would be
 MANUAL_SIGS = {
@@ -116,6 +129,8 @@ def is_list(t):
 
 
 def coq_type(t):
+    if isinstance(t, tuple) and t[0] == "F":
+        return t[1]
     if isinstance(t, tuple) and t[0] == "T":
         return "(" + " * ".join(coq_type(x) for x in t[1]) + ")"
     if t == Z:
@@ -701,6 +716,13 @@ class Translator:
                     raise Untranslatable(e, "effectful argument of a real-valued primitive")
             n, _ = self.expr(fn, sc, kw["size"], pre, Z)
             return self.eff(fn, pre, f"(popXs {n})", L(Q), e)
+        # ---- a function-valued parameter (the configured strategy): applied to its arguments, effects threaded
+        if isinstance(f, ast.Name) and isinstance(sc.env.get(f.id), tuple) and sc.env[f.id][0] == "F":
+            _, _, fret, fargs = sc.env[f.id]
+            if e.keywords or len(e.args) != len(fargs):
+                raise Untranslatable(e, "call shape of the strategy function")
+            cs = [self.expr(fn, sc, a_, pre, t_)[0] for a_, t_ in zip(e.args, fargs)]
+            return self.eff(fn, pre, "(" + cname(f.id) + " " + " ".join(cs) + ")", fret, e)
         # ---- translated functions
         if isinstance(f, ast.Name) and f.id in self.funcs:
             info = self.funcs[f.id]
@@ -1242,6 +1264,10 @@ class Translator:
                 new, fields = specialise(fd[0], cls, oname, consts, method_fields)
                 ret_t, arg_ts = parse_sig(ast.parse(sig).body[0].value)
                 field_ts = [sig_type(ast.parse(SELF_FIELDS[cls][f_]).body[0].value) for f_ in fields]
+                if oname in FUNC_LOCALS:
+                    _, coq_t, fr, fa = FUNC_LOCALS[oname]
+                    ftype = ("F", coq_t, sig_type(ast.parse(fr).body[0].value), tuple(sig_type(ast.parse(a_).body[0].value) for a_ in fa))
+                    field_ts = [ftype] + field_ts
                 MANUAL_PARSED[oname] = (ret_t, field_ts + arg_ts)
                 self.out.append((oname, self.function(new, rel), None, rel, line))
                 method_fields[(cls, fname_)] = (oname, fields)
@@ -1276,6 +1302,10 @@ def specialise(node, cls, out_name, consts, method_fields):
 
     class Rw(ast.NodeTransformer):
         def visit_Attribute(self_, n):
+            if ast.unparse(n) == "self._thefittest._genotype" and isinstance(n.ctx, ast.Load) and cls is not None and "_thefittest_genotype" in SELF_FIELDS[cls]:
+                if "_thefittest_genotype" not in used_fields:
+                    used_fields.append("_thefittest_genotype")
+                return ast.copy_location(ast.Name(id="self_thefittest_genotype", ctx=ast.Load()), n)
             if isinstance(n.value, ast.Name) and n.value.id == "self":
                 if not isinstance(n.ctx, ast.Load):
                     raise Untranslatable(n, "store into self." + n.attr)
@@ -1376,7 +1406,18 @@ def specialise(node, cls, out_name, consts, method_fields):
     body = []
     if dict_param is not None:
         body.append(ast.parse(f"{dict_param[0]} = {dict_param[0]}.copy()").body[0])
-    for st in node.body:
+    func_local = FUNC_LOCALS.get(out_name)
+    stmts_in = list(node.body)
+    if func_local is not None:
+        pinned = [st for st in stmts_in if ast.unparse(st) == func_local[0]]
+        if len(pinned) != 1:
+            raise Untranslatable(node, "the statement binding the strategy function is no longer: " + func_local[0])
+        stmts_in = [st for st in stmts_in if st is not pinned[0]]
+        fname_local = func_local[0].split(" = ")[0]
+        for x in ast.walk(ast.Module(body=stmts_in, type_ignores=[])):
+            if isinstance(x, ast.Name) and x.id == fname_local and not isinstance(x.ctx, ast.Load):
+                raise Untranslatable(x, "the strategy function is re-bound")
+    for st in stmts_in:
         r = fold(Rw().visit(st))
         for r1 in (r if isinstance(r, list) else [r]):
             if dict_param is not None:
@@ -1386,7 +1427,7 @@ def specialise(node, cls, out_name, consts, method_fields):
                 if leftover:
                     raise Untranslatable(r1, f"use of the dict '{dict_param[0]}' outside the modelled forms")
             body.append(r1)
-    new_params = ["self" + f_ for f_ in used_fields] + kept
+    new_params = ([func_local[0].split(" = ")[0]] if func_local is not None else []) + ["self" + f_ for f_ in used_fields] + kept
     fd = ast.FunctionDef(name=out_name, args=ast.arguments(posonlyargs=[], args=[ast.arg(arg=p) for p in new_params], kwonlyargs=[], kw_defaults=[], defaults=[]),
                          body=body, decorator_list=[], lineno=node.lineno, col_offset=0)
     ast.fix_missing_locations(fd)
